@@ -415,6 +415,7 @@ class C07Structure(Monitor):
         self.pending = []
         self.round_children = 0
         self.started = {}
+        self.sleeping = {}
 
     def _check_structure(self, tree, where):
         ctx = self.ctx
@@ -486,6 +487,13 @@ class C07Structure(Monitor):
 
     def on_step_end(self, tree):
         self._check_structure(tree, "boundary")
+        # coverage: a deme with adaptive mutation (its step depends on the deme's own clock) going through a sleep-wake cycle
+        for d in self.all_demes(tree):
+            was = self.sleeping.get(d.id, False)
+            now = bool(d._hibernating)
+            if was and not now and d.is_active and self.engine_of(d) == "sea_adapt":
+                self.cov("adaptive_mutation_deme_woke_up")
+            self.sleeping[d.id] = now
 
     def on_run_end(self, tree):
         self._check_structure(tree, "end")
